@@ -138,6 +138,7 @@ package uhppote
 //@   ensures wire:   !(controllerID == 0) ==> wire.header(B, 0xa4, controllerID) && wire.bool(B, 8, readers[1]) && wire.bool(B, 9, readers[2]) && wire.bool(B, 10, readers[3]) && wire.bool(B, 11, readers[4]) && wire.zero(B, 12, 64)
 //@   ensures route:  !(controllerID == 0) ==> routed(u, controllerID, N0)
 //@   ensures accept: err == nil ==> accepted(N0, 0xa4, controllerID) && R[8] <= 1
+//@   ensures complete: accepted(N0, 0xa4, controllerID) && R[8] <= 1 ==> err == nil
 //@   ensures result: err == nil ==> (ok <==> R[8] == 1)
 
 //@ func (*uhppote).AddTask
@@ -155,6 +156,7 @@ package uhppote
 //@   ensures wire:   !(deviceID == 0) && ((task.From.abs == 0 && task.From.ns == 0) || (0 <= time.year(task.From.abs, task.From.loc) && time.year(task.From.abs, task.From.loc) <= 9999)) && ((task.To.abs == 0 && task.To.ns == 0) || (0 <= time.year(task.To.abs, task.To.loc) && time.year(task.To.abs, task.To.loc) <= 9999)) && 0 <= task.Start.hours && task.Start.hours <= 99 && 0 <= task.Start.minutes && task.Start.minutes <= 99 ==> wire.header(B, 0xa8, deviceID) && wire.date(B, 8, task.From.abs, task.From.ns, task.From.loc) && wire.date(B, 12, task.To.abs, task.To.ns, task.To.loc) && wire.bool(B, 16, task.Weekdays[1]) && wire.bool(B, 17, task.Weekdays[2]) && wire.bool(B, 18, task.Weekdays[3]) && wire.bool(B, 19, task.Weekdays[4]) && wire.bool(B, 20, task.Weekdays[5]) && wire.bool(B, 21, task.Weekdays[6]) && wire.bool(B, 22, task.Weekdays[0]) && wire.hhmm(B, 23, task.Start.hours, task.Start.minutes) && B[25] == task.Door && B[26] == task.Task % 256 && B[27] == task.Cards && wire.zero(B, 28, 64)
 //@   ensures route:  !(deviceID == 0) && ((task.From.abs == 0 && task.From.ns == 0) || (0 <= time.year(task.From.abs, task.From.loc) && time.year(task.From.abs, task.From.loc) <= 9999)) && ((task.To.abs == 0 && task.To.ns == 0) || (0 <= time.year(task.To.abs, task.To.loc) && time.year(task.To.abs, task.To.loc) <= 9999)) && 0 <= task.Start.hours && task.Start.hours <= 99 && 0 <= task.Start.minutes && task.Start.minutes <= 99 ==> routed(u, deviceID, N0)
 //@   ensures accept: err == nil ==> accepted(N0, 0xa8, deviceID) && R[8] <= 1
+//@   ensures complete: accepted(N0, 0xa8, deviceID) && R[8] <= 1 ==> err == nil
 //@   ensures result: err == nil ==> (ok <==> R[8] == 1)
 
 //@ func (*uhppote).ClearTaskList
@@ -172,6 +174,7 @@ package uhppote
 //@   ensures wire:   !(deviceID == 0) ==> wire.header(B, 0xa6, deviceID) && wire.magic(B, 8) && wire.zero(B, 12, 64)
 //@   ensures route:  !(deviceID == 0) ==> routed(u, deviceID, N0)
 //@   ensures accept: err == nil ==> accepted(N0, 0xa6, deviceID) && R[8] <= 1
+//@   ensures complete: accepted(N0, 0xa6, deviceID) && R[8] <= 1 ==> err == nil
 //@   ensures result: err == nil ==> (ok <==> R[8] == 1)
 
 //@ func (*uhppote).ClearTimeProfiles
@@ -189,6 +192,7 @@ package uhppote
 //@   ensures wire:   !(deviceID == 0) ==> wire.header(B, 0x8a, deviceID) && wire.magic(B, 8) && wire.zero(B, 12, 64)
 //@   ensures route:  !(deviceID == 0) ==> routed(u, deviceID, N0)
 //@   ensures accept: err == nil ==> accepted(N0, 0x8a, deviceID) && R[8] <= 1
+//@   ensures complete: accepted(N0, 0x8a, deviceID) && R[8] <= 1 ==> err == nil
 //@   ensures result: err == nil ==> (ok <==> R[8] == 1)
 
 //@ func (*uhppote).DeleteCards
@@ -206,6 +210,7 @@ package uhppote
 //@   ensures wire:   !(deviceID == 0) ==> wire.header(B, 0x54, deviceID) && wire.magic(B, 8) && wire.zero(B, 12, 64)
 //@   ensures route:  !(deviceID == 0) ==> routed(u, deviceID, N0)
 //@   ensures accept: err == nil ==> accepted(N0, 0x54, deviceID) && R[8] <= 1
+//@   ensures complete: accepted(N0, 0x54, deviceID) && R[8] <= 1 ==> err == nil
 //@   ensures result: err == nil ==> (ok <==> R[8] == 1)
 
 //@ func (*uhppote).RefreshTaskList
@@ -223,6 +228,7 @@ package uhppote
 //@   ensures wire:   !(deviceID == 0) ==> wire.header(B, 0xac, deviceID) && wire.magic(B, 8) && wire.zero(B, 12, 64)
 //@   ensures route:  !(deviceID == 0) ==> routed(u, deviceID, N0)
 //@   ensures accept: err == nil ==> accepted(N0, 0xac, deviceID) && R[8] <= 1
+//@   ensures complete: accepted(N0, 0xac, deviceID) && R[8] <= 1 ==> err == nil
 //@   ensures result: err == nil ==> (ok <==> R[8] == 1)
 
 //@ func (*uhppote).RestoreDefaultParameters
@@ -240,6 +246,7 @@ package uhppote
 //@   ensures wire:   !(controller == 0) ==> wire.header(B, 0xc8, controller) && wire.magic(B, 8) && wire.zero(B, 12, 64)
 //@   ensures route:  !(controller == 0) ==> routed(u, controller, N0)
 //@   ensures accept: err == nil ==> accepted(N0, 0xc8, controller) && R[8] <= 1
+//@   ensures complete: accepted(N0, 0xc8, controller) && R[8] <= 1 ==> err == nil
 //@   ensures result: err == nil ==> (ok <==> R[8] == 1)
 
 //@ func (*uhppote).DeleteCard
@@ -257,6 +264,7 @@ package uhppote
 //@   ensures wire:   !(deviceID == 0) ==> wire.header(B, 0x52, deviceID) && wire.u32(B, 8) == cardNumber && wire.zero(B, 12, 64)
 //@   ensures route:  !(deviceID == 0) ==> routed(u, deviceID, N0)
 //@   ensures accept: err == nil ==> accepted(N0, 0x52, deviceID) && R[8] <= 1
+//@   ensures complete: accepted(N0, 0x52, deviceID) && R[8] <= 1 ==> err == nil
 //@   ensures result: err == nil ==> (ok <==> R[8] == 1)
 
 //@ func (*uhppote).GetCards
@@ -274,6 +282,7 @@ package uhppote
 //@   ensures wire:   !(deviceID == 0) ==> wire.header(B, 0x58, deviceID) && wire.zero(B, 8, 64)
 //@   ensures route:  !(deviceID == 0) ==> routed(u, deviceID, N0)
 //@   ensures accept: err == nil ==> accepted(N0, 0x58, deviceID)
+//@   ensures complete: accepted(N0, 0x58, deviceID) ==> err == nil
 //@   ensures result: err == nil ==> n == wire.u32(R, 8)
 
 //@ func (*uhppote).GetEventIndex
@@ -291,6 +300,7 @@ package uhppote
 //@   ensures wire:   !(deviceID == 0) ==> wire.header(B, 0xb4, deviceID) && wire.zero(B, 8, 64)
 //@   ensures route:  !(deviceID == 0) ==> routed(u, deviceID, N0)
 //@   ensures accept: err == nil ==> accepted(N0, 0xb4, deviceID)
+//@   ensures complete: accepted(N0, 0xb4, deviceID) ==> err == nil
 //@   ensures result: err == nil ==> res != nil && res.SerialNumber == deviceID && res.Index == wire.u32(R, 8)
 
 //@ func (*uhppote).GetTime
@@ -308,6 +318,7 @@ package uhppote
 //@   ensures wire:   !(serialNumber == 0) ==> wire.header(B, 0x32, serialNumber) && wire.zero(B, 8, 64)
 //@   ensures route:  !(serialNumber == 0) ==> routed(u, serialNumber, N0)
 //@   ensures accept: err == nil ==> accepted(N0, 0x32, serialNumber) && wire.rdtOK(R, 8)
+//@   ensures complete: accepted(N0, 0x32, serialNumber) && wire.rdtOK(R, 8) ==> err == nil
 //@   ensures result: err == nil ==> res != nil && res.SerialNumber == serialNumber && wire.rdatetime(R, 8, res.DateTime.abs, res.DateTime.ns, res.DateTime.loc)
 
 //@ func (*uhppote).SetTime
@@ -325,6 +336,7 @@ package uhppote
 //@   ensures wire:   !(serialNumber == 0) && 0 <= time.year(datetime.abs, datetime.loc) && time.year(datetime.abs, datetime.loc) <= 9999 ==> wire.header(B, 0x30, serialNumber) && wire.datetime(B, 8, datetime.abs, datetime.loc) && wire.zero(B, 15, 64)
 //@   ensures route:  !(serialNumber == 0) && 0 <= time.year(datetime.abs, datetime.loc) && time.year(datetime.abs, datetime.loc) <= 9999 ==> routed(u, serialNumber, N0)
 //@   ensures accept: err == nil ==> accepted(N0, 0x30, serialNumber) && wire.rdtOK(R, 8)
+//@   ensures complete: accepted(N0, 0x30, serialNumber) && wire.rdtOK(R, 8) ==> err == nil
 //@   ensures result: err == nil ==> res != nil && res.SerialNumber == serialNumber && wire.rdatetime(R, 8, res.DateTime.abs, res.DateTime.ns, res.DateTime.loc)
 
 //@ func (*uhppote).OpenDoor
@@ -342,6 +354,7 @@ package uhppote
 //@   ensures wire:   !(deviceID == 0) ==> wire.header(B, 0x40, deviceID) && B[8] == door && wire.zero(B, 9, 64)
 //@   ensures route:  !(deviceID == 0) ==> routed(u, deviceID, N0)
 //@   ensures accept: err == nil ==> accepted(N0, 0x40, deviceID) && R[8] <= 1
+//@   ensures complete: accepted(N0, 0x40, deviceID) && R[8] <= 1 ==> err == nil
 //@   ensures result: err == nil ==> res != nil && res.SerialNumber == deviceID && (res.Succeeded <==> R[8] == 1)
 
 //@ func (*uhppote).RecordSpecialEvents
@@ -359,6 +372,7 @@ package uhppote
 //@   ensures wire:   !(deviceID == 0) ==> wire.header(B, 0x8e, deviceID) && wire.bool(B, 8, enable) && wire.zero(B, 9, 64)
 //@   ensures route:  !(deviceID == 0) ==> routed(u, deviceID, N0)
 //@   ensures accept: err == nil ==> accepted(N0, 0x8e, deviceID) && R[8] <= 1
+//@   ensures complete: accepted(N0, 0x8e, deviceID) && R[8] <= 1 ==> err == nil
 //@   ensures result: err == nil ==> (ok <==> R[8] == 1)
 
 //@ func (*uhppote).SetPCControl
@@ -376,6 +390,7 @@ package uhppote
 //@   ensures wire:   !(deviceID == 0) ==> wire.header(B, 0xa0, deviceID) && wire.magic(B, 8) && wire.bool(B, 12, enable) && wire.zero(B, 13, 64)
 //@   ensures route:  !(deviceID == 0) ==> routed(u, deviceID, N0)
 //@   ensures accept: err == nil ==> accepted(N0, 0xa0, deviceID) && R[8] <= 1
+//@   ensures complete: accepted(N0, 0xa0, deviceID) && R[8] <= 1 ==> err == nil
 //@   ensures result: err == nil ==> (ok <==> R[8] == 1)
 
 //@ func (*uhppote).SetInterlock
@@ -393,6 +408,7 @@ package uhppote
 //@   ensures wire:   !(controllerID == 0) ==> wire.header(B, 0xa2, controllerID) && B[8] == interlock && wire.zero(B, 9, 64)
 //@   ensures route:  !(controllerID == 0) ==> routed(u, controllerID, N0)
 //@   ensures accept: err == nil ==> accepted(N0, 0xa2, controllerID) && R[8] <= 1
+//@   ensures complete: accepted(N0, 0xa2, controllerID) && R[8] <= 1 ==> err == nil
 //@   ensures result: err == nil ==> (ok <==> R[8] == 1)
 
 //@ func (*uhppote).SetEventIndex
@@ -410,6 +426,7 @@ package uhppote
 //@   ensures wire:   !(deviceID == 0) ==> wire.header(B, 0xb2, deviceID) && wire.u32(B, 8) == index && wire.magic(B, 12) && wire.zero(B, 16, 64)
 //@   ensures route:  !(deviceID == 0) ==> routed(u, deviceID, N0)
 //@   ensures accept: err == nil ==> accepted(N0, 0xb2, deviceID) && R[8] <= 1
+//@   ensures complete: accepted(N0, 0xb2, deviceID) && R[8] <= 1 ==> err == nil
 //@   ensures result: err == nil ==> res != nil && res.SerialNumber == deviceID && res.Index == index && (res.Changed <==> R[8] == 1)
 
 //@ func (*uhppote).GetDoorControlState
@@ -427,6 +444,7 @@ package uhppote
 //@   ensures wire:   !(serialNumber == 0) ==> wire.header(B, 0x82, serialNumber) && B[8] == door && wire.zero(B, 9, 64)
 //@   ensures route:  !(serialNumber == 0) ==> routed(u, serialNumber, N0)
 //@   ensures accept: err == nil ==> accepted(N0, 0x82, serialNumber)
+//@   ensures complete: accepted(N0, 0x82, serialNumber) ==> err == nil
 //@   ensures result: err == nil ==> res != nil && res.SerialNumber == serialNumber && res.Door == R[8] && res.ControlState == R[9] && res.Delay == R[10]
 
 //@ func (*uhppote).SetDoorControlState
@@ -444,6 +462,7 @@ package uhppote
 //@   ensures wire:   !(serialNumber == 0) ==> wire.header(B, 0x80, serialNumber) && B[8] == door && B[9] == state % 256 && B[10] == delay && wire.zero(B, 11, 64)
 //@   ensures route:  !(serialNumber == 0) ==> routed(u, serialNumber, N0)
 //@   ensures accept: err == nil ==> accepted(N0, 0x80, serialNumber)
+//@   ensures complete: accepted(N0, 0x80, serialNumber) ==> err == nil
 //@   ensures result: err == nil ==> res != nil && res.SerialNumber == serialNumber && res.Door == R[8] && res.ControlState == R[9] && res.Delay == R[10]
 
 //@ func (*uhppote).SetDoorPasscodes
@@ -462,6 +481,7 @@ package uhppote
 //@   ensures wire:   !(INVALID) ==> wire.header(B, 0x8c, controller) && B[8] == door && B[9] == 0 && B[10] == 0 && B[11] == 0 && wire.u32(B, 12) == ((len(passcodes) > 0 && passcodes[0] <= 999999) ? passcodes[0] : 0) && wire.u32(B, 16) == ((len(passcodes) > 1 && passcodes[1] <= 999999) ? passcodes[1] : 0) && wire.u32(B, 20) == ((len(passcodes) > 2 && passcodes[2] <= 999999) ? passcodes[2] : 0) && wire.u32(B, 24) == ((len(passcodes) > 3 && passcodes[3] <= 999999) ? passcodes[3] : 0) && wire.zero(B, 28, 64)
 //@   ensures route:  !(INVALID) ==> routed(u, controller, N0)
 //@   ensures accept: err == nil ==> accepted(N0, 0x8c, controller) && R[8] <= 1
+//@   ensures complete: accepted(N0, 0x8c, controller) && R[8] <= 1 ==> err == nil
 //@   ensures result: err == nil ==> (ok <==> R[8] == 1)
 
 //@ func (*uhppote).SetListener
@@ -480,6 +500,7 @@ package uhppote
 //@   ensures wire:   !(INVALID) ==> wire.header(B, 0x90, controller) && wire.be32(B, 8) == address.ip.bits && wire.u16(B, 12) == address.port && B[14] == interval && wire.zero(B, 15, 64)
 //@   ensures route:  !(INVALID) ==> routed(u, controller, N0)
 //@   ensures accept: err == nil ==> accepted(N0, 0x90, controller) && R[8] <= 1
+//@   ensures complete: accepted(N0, 0x90, controller) && R[8] <= 1 ==> err == nil
 //@   ensures result: err == nil ==> (ok <==> R[8] == 1)
 
 //@ func (*uhppote).SetAddress
@@ -513,6 +534,7 @@ package uhppote
 //@   ensures wire:   !(serialNumber == 0) ==> wire.header(B, 0x92, serialNumber) && wire.zero(B, 8, 64)
 //@   ensures route:  !(serialNumber == 0) ==> routed(u, serialNumber, N0)
 //@   ensures accept: err == nil ==> accepted(N0, 0x92, serialNumber)
+//@   ensures complete: accepted(N0, 0x92, serialNumber) ==> err == nil
 //@   ensures result: err == nil ==> addr.ip.kind == 1 && addr.ip.bits == wire.be32(R, 8) && addr.port == wire.u16(R, 12) && interval == R[14]
 
 //@ func (*uhppote).GetEvent
@@ -530,6 +552,7 @@ package uhppote
 //@   ensures wire:   !(deviceID == 0) ==> wire.header(B, 0xb0, deviceID) && wire.u32(B, 8) == index && wire.zero(B, 12, 64)
 //@   ensures route:  !(deviceID == 0) ==> routed(u, deviceID, N0)
 //@   ensures accept: err == nil ==> accepted(N0, 0xb0, deviceID) && R[13] <= 1 && R[12] != 255 && wire.rdtOK(R, 20)
+//@   ensures complete: accepted(N0, 0xb0, deviceID) && R[13] <= 1 && R[12] != 255 && wire.rdtOK(R, 20) ==> err == nil
 //@   ensures result: err == nil ==> (wire.u32(R, 8) == 0 ==> res == nil) && (wire.u32(R, 8) != 0 ==> res != nil && res.SerialNumber == deviceID && res.Index == wire.u32(R, 8) && res.Type == R[12] && (res.Granted <==> R[13] == 1) && res.Door == R[14] && res.Direction == R[15] && res.CardNumber == wire.u32(R, 16) && res.Reason == R[27] && wire.rdatetime(R, 20, res.Timestamp.abs, res.Timestamp.ns, res.Timestamp.loc))
 
 //@ func (*uhppote).GetCardByIndex
@@ -547,6 +570,7 @@ package uhppote
 //@   ensures wire:   !(deviceID == 0) ==> wire.header(B, 0x5c, deviceID) && wire.u32(B, 8) == index && wire.zero(B, 12, 64)
 //@   ensures route:  !(deviceID == 0) ==> routed(u, deviceID, N0)
 //@   ensures accept: err == nil ==> accepted(N0, 0x5c, deviceID) && wire.bcdok(R, 12, 8)
+//@   ensures complete: accepted(N0, 0x5c, deviceID) && (bcd.ok(R[12]) && bcd.ok(R[13]) && bcd.ok(R[14]) && bcd.ok(R[15]) && bcd.ok(R[16]) && bcd.ok(R[17]) && bcd.ok(R[18]) && bcd.ok(R[19])) ==> err == nil
 //@   ensures result: err == nil ==> ((wire.u32(R, 8) == 0 || wire.u32(R, 8) == 4294967295) ==> res == nil) && (wire.u32(R, 8) != 0 && wire.u32(R, 8) != 4294967295 ==> res != nil && res.CardNumber == wire.u32(R, 8) && res.Doors != nil && fresh(res.Doors) && res.Doors[1] == R[20] && res.Doors[2] == R[21] && res.Doors[3] == R[22] && res.Doors[4] == R[23] && res.PIN == wire.u24(R, 24) && wire.rdate(R, 12, res.From.abs, res.From.ns, res.From.loc) && wire.rdate(R, 16, res.To.abs, res.To.ns, res.To.loc))
 
 //@ func (*uhppote).GetCardByID
@@ -564,6 +588,7 @@ package uhppote
 //@   ensures wire:   !(deviceID == 0) ==> wire.header(B, 0x5a, deviceID) && wire.u32(B, 8) == cardNumber && wire.zero(B, 12, 64)
 //@   ensures route:  !(deviceID == 0) ==> routed(u, deviceID, N0)
 //@   ensures accept: err == nil ==> accepted(N0, 0x5a, deviceID) && (wire.u32(R, 8) == 0 || wire.u32(R, 8) == cardNumber) && wire.bcdok(R, 12, 8)
+//@   ensures complete: accepted(N0, 0x5a, deviceID) && (wire.u32(R, 8) == 0 || wire.u32(R, 8) == cardNumber) && (bcd.ok(R[12]) && bcd.ok(R[13]) && bcd.ok(R[14]) && bcd.ok(R[15]) && bcd.ok(R[16]) && bcd.ok(R[17]) && bcd.ok(R[18]) && bcd.ok(R[19])) ==> err == nil
 //@   ensures result: err == nil ==> (wire.u32(R, 8) == 0 ==> res == nil) && (wire.u32(R, 8) != 0 ==> res != nil && res.CardNumber == wire.u32(R, 8) && res.Doors != nil && fresh(res.Doors) && res.Doors[1] == R[20] && res.Doors[2] == R[21] && res.Doors[3] == R[22] && res.Doors[4] == R[23] && res.PIN == wire.u24(R, 24) && wire.rdate(R, 12, res.From.abs, res.From.ns, res.From.loc) && wire.rdate(R, 16, res.To.abs, res.To.ns, res.To.loc))
 
 //@ func (*uhppote).PutCard
@@ -582,6 +607,7 @@ package uhppote
 //@   ensures wire:   !(INVALID) && ((card.From.abs == 0 && card.From.ns == 0) || (0 <= time.year(card.From.abs, card.From.loc) && time.year(card.From.abs, card.From.loc) <= 9999)) && ((card.To.abs == 0 && card.To.ns == 0) || (0 <= time.year(card.To.abs, card.To.loc) && time.year(card.To.abs, card.To.loc) <= 9999)) ==> wire.header(B, 0x50, deviceID) && wire.u32(B, 8) == card.CardNumber && wire.date(B, 12, card.From.abs, card.From.ns, card.From.loc) && wire.date(B, 16, card.To.abs, card.To.ns, card.To.loc) && B[20] == card.Doors[1] && B[21] == card.Doors[2] && B[22] == card.Doors[3] && B[23] == card.Doors[4] && wire.u24(B, 24) == card.PIN && wire.zero(B, 27, 64)
 //@   ensures route:  !(INVALID) && ((card.From.abs == 0 && card.From.ns == 0) || (0 <= time.year(card.From.abs, card.From.loc) && time.year(card.From.abs, card.From.loc) <= 9999)) && ((card.To.abs == 0 && card.To.ns == 0) || (0 <= time.year(card.To.abs, card.To.loc) && time.year(card.To.abs, card.To.loc) <= 9999)) ==> routed(u, deviceID, N0)
 //@   ensures accept: err == nil ==> accepted(N0, 0x50, deviceID) && R[8] <= 1
+//@   ensures complete: accepted(N0, 0x50, deviceID) && R[8] <= 1 ==> err == nil
 //@   ensures result: err == nil ==> (ok <==> R[8] == 1)
 
 //@ func (*uhppote).GetTimeProfile
@@ -599,6 +625,7 @@ package uhppote
 //@   ensures wire:   !(deviceID == 0) ==> wire.header(B, 0x98, deviceID) && B[8] == profileID && wire.zero(B, 9, 64)
 //@   ensures route:  !(deviceID == 0) ==> routed(u, deviceID, N0)
 //@   ensures accept: err == nil ==> accepted(N0, 0x98, deviceID) && (R[8] == 0 || R[8] == profileID) && wire.bcdok(R, 9, 8) && R[17] <= 1 && R[18] <= 1 && R[19] <= 1 && R[20] <= 1 && R[21] <= 1 && R[22] <= 1 && R[23] <= 1
+//@   ensures complete: accepted(N0, 0x98, deviceID) && (R[8] == 0 || R[8] == profileID) && (bcd.ok(R[9]) && bcd.ok(R[10]) && bcd.ok(R[11]) && bcd.ok(R[12]) && bcd.ok(R[13]) && bcd.ok(R[14]) && bcd.ok(R[15]) && bcd.ok(R[16])) && R[17] <= 1 && R[18] <= 1 && R[19] <= 1 && R[20] <= 1 && R[21] <= 1 && R[22] <= 1 && R[23] <= 1 ==> err == nil
 //@   ensures result: err == nil ==> (R[8] == 0 ==> res == nil) && (R[8] != 0 ==> res != nil && res.ID == R[8] && res.LinkedProfileID == R[36] && wire.rdate(R, 9, res.From.abs, res.From.ns, res.From.loc) && wire.rdate(R, 13, res.To.abs, res.To.ns, res.To.loc) && res.Weekdays != nil && fresh(res.Weekdays) && res.Segments != nil && fresh(res.Segments) && (res.Weekdays[1] <==> R[17] == 1) && (res.Weekdays[2] <==> R[18] == 1) && (res.Weekdays[3] <==> R[19] == 1) && (res.Weekdays[4] <==> R[20] == 1) && (res.Weekdays[5] <==> R[21] == 1) && (res.Weekdays[6] <==> R[22] == 1) && (res.Weekdays[0] <==> R[23] == 1) && (wire.rhhmmOK(R, 24) ? wire.rhhmm(R, 24, res.Segments[1].Start.hours, res.Segments[1].Start.minutes) : (res.Segments[1].Start.hours == 0 && res.Segments[1].Start.minutes == 0)) && (wire.rhhmmOK(R, 26) ? wire.rhhmm(R, 26, res.Segments[1].End.hours, res.Segments[1].End.minutes) : (res.Segments[1].End.hours == 0 && res.Segments[1].End.minutes == 0)) && (wire.rhhmmOK(R, 28) ? wire.rhhmm(R, 28, res.Segments[2].Start.hours, res.Segments[2].Start.minutes) : (res.Segments[2].Start.hours == 0 && res.Segments[2].Start.minutes == 0)) && (wire.rhhmmOK(R, 30) ? wire.rhhmm(R, 30, res.Segments[2].End.hours, res.Segments[2].End.minutes) : (res.Segments[2].End.hours == 0 && res.Segments[2].End.minutes == 0)) && (wire.rhhmmOK(R, 32) ? wire.rhhmm(R, 32, res.Segments[3].Start.hours, res.Segments[3].Start.minutes) : (res.Segments[3].Start.hours == 0 && res.Segments[3].Start.minutes == 0)) && (wire.rhhmmOK(R, 34) ? wire.rhhmm(R, 34, res.Segments[3].End.hours, res.Segments[3].End.minutes) : (res.Segments[3].End.hours == 0 && res.Segments[3].End.minutes == 0)))
 
 //@ func (*uhppote).SetTimeProfile
@@ -617,6 +644,7 @@ package uhppote
 //@   ensures wire:   !(INVALID) && ((profile.From.abs == 0 && profile.From.ns == 0) || (0 <= time.year(profile.From.abs, profile.From.loc) && time.year(profile.From.abs, profile.From.loc) <= 9999)) && ((profile.To.abs == 0 && profile.To.ns == 0) || (0 <= time.year(profile.To.abs, profile.To.loc) && time.year(profile.To.abs, profile.To.loc) <= 9999)) && 0 <= profile.Segments[1].Start.hours && profile.Segments[1].Start.hours <= 99 && 0 <= profile.Segments[1].Start.minutes && profile.Segments[1].Start.minutes <= 99 && 0 <= profile.Segments[1].End.hours && profile.Segments[1].End.hours <= 99 && 0 <= profile.Segments[1].End.minutes && profile.Segments[1].End.minutes <= 99 && 0 <= profile.Segments[2].Start.hours && profile.Segments[2].Start.hours <= 99 && 0 <= profile.Segments[2].Start.minutes && profile.Segments[2].Start.minutes <= 99 && 0 <= profile.Segments[2].End.hours && profile.Segments[2].End.hours <= 99 && 0 <= profile.Segments[2].End.minutes && profile.Segments[2].End.minutes <= 99 && 0 <= profile.Segments[3].Start.hours && profile.Segments[3].Start.hours <= 99 && 0 <= profile.Segments[3].Start.minutes && profile.Segments[3].Start.minutes <= 99 && 0 <= profile.Segments[3].End.hours && profile.Segments[3].End.hours <= 99 && 0 <= profile.Segments[3].End.minutes && profile.Segments[3].End.minutes <= 99 ==> wire.header(B, 0x88, deviceID) && B[8] == profile.ID && wire.date(B, 9, profile.From.abs, profile.From.ns, profile.From.loc) && wire.date(B, 13, profile.To.abs, profile.To.ns, profile.To.loc) && wire.bool(B, 17, profile.Weekdays[1]) && wire.bool(B, 18, profile.Weekdays[2]) && wire.bool(B, 19, profile.Weekdays[3]) && wire.bool(B, 20, profile.Weekdays[4]) && wire.bool(B, 21, profile.Weekdays[5]) && wire.bool(B, 22, profile.Weekdays[6]) && wire.bool(B, 23, profile.Weekdays[0]) && wire.hhmm(B, 24, profile.Segments[1].Start.hours, profile.Segments[1].Start.minutes) && wire.hhmm(B, 26, profile.Segments[1].End.hours, profile.Segments[1].End.minutes) && wire.hhmm(B, 28, profile.Segments[2].Start.hours, profile.Segments[2].Start.minutes) && wire.hhmm(B, 30, profile.Segments[2].End.hours, profile.Segments[2].End.minutes) && wire.hhmm(B, 32, profile.Segments[3].Start.hours, profile.Segments[3].Start.minutes) && wire.hhmm(B, 34, profile.Segments[3].End.hours, profile.Segments[3].End.minutes) && B[36] == profile.LinkedProfileID && wire.zero(B, 37, 64)
 //@   ensures route:  !(INVALID) && ((profile.From.abs == 0 && profile.From.ns == 0) || (0 <= time.year(profile.From.abs, profile.From.loc) && time.year(profile.From.abs, profile.From.loc) <= 9999)) && ((profile.To.abs == 0 && profile.To.ns == 0) || (0 <= time.year(profile.To.abs, profile.To.loc) && time.year(profile.To.abs, profile.To.loc) <= 9999)) && 0 <= profile.Segments[1].Start.hours && profile.Segments[1].Start.hours <= 99 && 0 <= profile.Segments[1].Start.minutes && profile.Segments[1].Start.minutes <= 99 && 0 <= profile.Segments[1].End.hours && profile.Segments[1].End.hours <= 99 && 0 <= profile.Segments[1].End.minutes && profile.Segments[1].End.minutes <= 99 && 0 <= profile.Segments[2].Start.hours && profile.Segments[2].Start.hours <= 99 && 0 <= profile.Segments[2].Start.minutes && profile.Segments[2].Start.minutes <= 99 && 0 <= profile.Segments[2].End.hours && profile.Segments[2].End.hours <= 99 && 0 <= profile.Segments[2].End.minutes && profile.Segments[2].End.minutes <= 99 && 0 <= profile.Segments[3].Start.hours && profile.Segments[3].Start.hours <= 99 && 0 <= profile.Segments[3].Start.minutes && profile.Segments[3].Start.minutes <= 99 && 0 <= profile.Segments[3].End.hours && profile.Segments[3].End.hours <= 99 && 0 <= profile.Segments[3].End.minutes && profile.Segments[3].End.minutes <= 99 ==> routed(u, deviceID, N0)
 //@   ensures accept: err == nil ==> accepted(N0, 0x88, deviceID) && R[8] <= 1
+//@   ensures complete: accepted(N0, 0x88, deviceID) && R[8] <= 1 ==> err == nil
 //@   ensures result: err == nil ==> (ok <==> R[8] == 1)
 
 //@ func (*uhppote).GetDevice
@@ -634,6 +662,7 @@ package uhppote
 //@   ensures wire:   !(serialNumber == 0) ==> wire.header(B, 0x94, serialNumber) && wire.zero(B, 8, 64)
 //@   ensures route:  !(serialNumber == 0) ==> routed(u, serialNumber, N0)
 //@   ensures accept: err == nil ==> accepted(N0, 0x94, serialNumber) && wire.bcdok(R, 28, 4)
+//@   ensures complete: accepted(N0, 0x94, serialNumber) && (bcd.ok(R[28]) && bcd.ok(R[29]) && bcd.ok(R[30]) && bcd.ok(R[31])) ==> err == nil
 //@   ensures result: err == nil ==> res != nil && res.SerialNumber == serialNumber && res.Version == 256 * R[26] + R[27] && len(res.IpAddress) == 16 && res.IpAddress[12] == R[8] && res.IpAddress[13] == R[9] && res.IpAddress[14] == R[10] && res.IpAddress[15] == R[11] && len(res.SubnetMask) == 16 && res.SubnetMask[12] == R[12] && res.SubnetMask[13] == R[13] && res.SubnetMask[14] == R[14] && res.SubnetMask[15] == R[15] && len(res.Gateway) == 16 && res.Gateway[12] == R[16] && res.Gateway[13] == R[17] && res.Gateway[14] == R[18] && res.Gateway[15] == R[19] && len(res.MacAddress) == 6 && res.MacAddress[0] == R[20] && res.MacAddress[1] == R[21] && res.MacAddress[2] == R[22] && res.MacAddress[3] == R[23] && res.MacAddress[4] == R[24] && res.MacAddress[5] == R[25] && wire.rdate(R, 28, res.Date.abs, res.Date.ns, res.Date.loc)
 
 //@ func (*uhppote).GetStatus
@@ -651,6 +680,7 @@ package uhppote
 //@   ensures wire:   !(serialNumber == 0) ==> wire.header(B, 0x20, serialNumber) && wire.zero(B, 8, 64)
 //@   ensures route:  !(serialNumber == 0) ==> routed(u, serialNumber, N0)
 //@   ensures accept: err == nil ==> accepted(N0, 0x20, serialNumber) && R[13] <= 1 && R[28] <= 1 && R[29] <= 1 && R[30] <= 1 && R[31] <= 1 && R[32] <= 1 && R[33] <= 1 && R[34] <= 1 && R[35] <= 1 && wire.rdtOK(R, 20) && (wire.rsysdateOK(R, 51) ==> wire.bcdok(R, 51, 3) && time.validDate(wire.rsysY(R, 51), bcd.val2(R[52]), bcd.val2(R[53]))) && wire.bcdok(R, 37, 3) && time.validClock(bcd.val2(R[37]), bcd.val2(R[38]), bcd.val2(R[39]))
+//@   ensures complete: accepted(N0, 0x20, serialNumber) && R[13] <= 1 && R[28] <= 1 && R[29] <= 1 && R[30] <= 1 && R[31] <= 1 && R[32] <= 1 && R[33] <= 1 && R[34] <= 1 && R[35] <= 1 && wire.rdtOK(R, 20) && (wire.rsysdateOK(R, 51) ==> (bcd.ok(R[51]) && bcd.ok(R[52]) && bcd.ok(R[53])) && time.validDate(wire.rsysY(R, 51), bcd.val2(R[52]), bcd.val2(R[53]))) && (bcd.ok(R[37]) && bcd.ok(R[38]) && bcd.ok(R[39])) && time.validClock(bcd.val2(R[37]), bcd.val2(R[38]), bcd.val2(R[39])) ==> err == nil
 //@   ensures result: err == nil ==> res != nil && res.SerialNumber == serialNumber && res.SystemError == R[36] && res.SequenceId == wire.u32(R, 40) && res.SpecialInfo == R[48] && res.RelayState == R[49] && res.InputState == R[50] && (res.DoorState[1] <==> R[28] == 1) && (res.DoorState[2] <==> R[29] == 1) && (res.DoorState[3] <==> R[30] == 1) && (res.DoorState[4] <==> R[31] == 1) && (res.DoorButton[1] <==> R[32] == 1) && (res.DoorButton[2] <==> R[33] == 1) && (res.DoorButton[3] <==> R[34] == 1) && (res.DoorButton[4] <==> R[35] == 1) && (wire.u32(R, 8) == 0 ==> res.Event.Index == 0 && res.Event.Type == 0 && res.Event.CardNumber == 0 && res.Event.Timestamp.abs == 0) && (wire.u32(R, 8) != 0 ==> res.Event.Index == wire.u32(R, 8) && res.Event.Type == R[12] && (res.Event.Granted <==> R[13] == 1) && res.Event.Door == R[14] && res.Event.Direction == R[15] && res.Event.CardNumber == wire.u32(R, 16) && res.Event.Reason == R[27] && wire.rdatetime(R, 20, res.Event.Timestamp.abs, res.Event.Timestamp.ns, res.Event.Timestamp.loc)) && (!wire.rsysdateOK(R, 51) ==> res.SystemDateTime.abs == 0 && res.SystemDateTime.ns == 0) && (wire.rsysdateOK(R, 51) && time.dateAbs(time.civil(wire.rsysY(R, 51), bcd.val2(R[52]), bcd.val2(R[53]), 0, 0, 0), time.Local) != 0 && time.exists(time.civil(wire.rsysY(R, 51), bcd.val2(R[52]), bcd.val2(R[53]), 0, 0, 0), time.Local) && time.exists(time.civil(0, 1, 1, bcd.val2(R[37]), bcd.val2(R[38]), bcd.val2(R[39])), time.Local) && time.exists(time.civil(wire.rsysY(R, 51), bcd.val2(R[52]), bcd.val2(R[53]), bcd.val2(R[37]), bcd.val2(R[38]), bcd.val2(R[39])), time.Local) ==> time.year(res.SystemDateTime.abs, res.SystemDateTime.loc) == wire.rsysY(R, 51) && time.month(res.SystemDateTime.abs, res.SystemDateTime.loc) == bcd.val2(R[52]) && time.day(res.SystemDateTime.abs, res.SystemDateTime.loc) == bcd.val2(R[53]) && time.hour(res.SystemDateTime.abs, res.SystemDateTime.loc) == bcd.val2(R[37]) && time.minute(res.SystemDateTime.abs, res.SystemDateTime.loc) == bcd.val2(R[38]) && time.second(res.SystemDateTime.abs, res.SystemDateTime.loc) == bcd.val2(R[39]))
 
 // ---- GENERATED: end ----
